@@ -9,8 +9,8 @@ pub struct Counter {
     pub input_objects: u8,
     pub output_objects: u8,
     pub output_buffers: u8,
-    pub total_bundled_input: u8,
-    pub total_bundled_output: u8,
+    pub total_bundled_input: usize,
+    pub total_bundled_output: usize,
 
     has_bundled_input: bool,
     has_bundled_output: bool,
